@@ -22,7 +22,7 @@ def plan(tier, seed):
 META = {
     'level': 'model_checking',
     'engines': 'E1 (cbmc+MiniSat) for the finalize step under interleaved allocation; E2 (Real) for the whole-driver family and the pivotL unit',
-    'bounds': {'finalize': 'n<=4 columns, 2 supernodes of any sizes and 3 single-column supernodes (thorough: 3 of any sizes at n=4), any row permutation, every interleaving of the 2*NS allocation steps with at most 2-3 in flight',
+    'bounds': {'finalize': 'through the REAL p?gstrf_thread_finalize, first-time or refact=YES (caller\'s L/U pre-existing with arbitrary counts), two workers with arbitrary info values; n<=4 columns, 2 supernodes of any sizes and 3 single-column supernodes (thorough: 3 of any sizes at n=4), any row permutation, every interleaving of the 2*NS allocation steps with at most 2-3 in flight',
                'whole driver': 'as C01 (n<=3): every bullet of the property asserted on the returned L, U, perm_r, perm_c (harness/wf_lu.h)',
                'pivotL unit': 'as C02: perm_r / inv_perm_r / row-list updates of the real pivotL'},
     'outside': ['n > 4', 'supernode numbering by more than 3 concurrent workers'],
